@@ -261,7 +261,7 @@ def signature(harness, params, rec):
 def jobs(tier):
     q = tier == "quick"
     out = []
-    for f in (("oid", "path") if q else ("oid", "path", "mixed", "oid-filt")):
+    for f in (("oid", "path") if q else ("oid", "path", "mixed")):
         for side in (0, 1):
             for op in OPS:
                 out.append({"harness": "mangle", "params": {"flavour": f, "base": 2, "nops": 1 if q else 2, "slots": 1, "first": [side, op]},
